@@ -636,6 +636,7 @@ func insertPlaceholder(st *ssa.Store) bool {
 	}
 	// arr[:] passed to append whose result is stored to a field
 	var target *ssa.Store
+	var grown *ssa.Call // register form: items = append(items, nil) with the result used directly
 	for _, r := range *arr.Referrers() {
 		sl, ok := r.(*ssa.Slice)
 		if !ok {
@@ -654,16 +655,25 @@ func insertPlaceholder(st *ssa.Store) bool {
 					target = s2
 				}
 			}
+			if call.Block() == st.Block() {
+				grown = call
+			}
 		}
 	}
-	if target == nil {
+	if target == nil && grown == nil {
 		return false
 	}
-	tfa, ok := target.Addr.(*ssa.FieldAddr)
-	if !ok {
-		return false
+	var tfa *ssa.FieldAddr
+	if target != nil {
+		tfa, ok = target.Addr.(*ssa.FieldAddr)
+		if !ok {
+			return false
+		}
 	}
-	sameLoc := func(v ssa.Value) bool { // v is a load of the same field of the same base
+	sameLoc := func(v ssa.Value) bool { // v is a load of the same field of the same base (or the grown list itself)
+		if tfa == nil {
+			return v == ssa.Value(grown)
+		}
 		u, ok := v.(*ssa.UnOp)
 		if !ok || u.Op != token.MUL {
 			return false
@@ -675,7 +685,7 @@ func insertPlaceholder(st *ssa.Store) bool {
 	copied, stored := false, false
 	after := false
 	for _, ins := range st.Block().Instrs {
-		if ins == ssa.Instruction(target) {
+		if (target != nil && ins == ssa.Instruction(target)) || (target == nil && ins == ssa.Instruction(grown)) {
 			after = true
 			continue
 		}
@@ -705,7 +715,7 @@ func insertPlaceholder(st *ssa.Store) bool {
 			if x == target {
 				continue
 			}
-			if fa, ok := x.Addr.(*ssa.FieldAddr); ok && fa.X == tfa.X && fa.Field == tfa.Field {
+			if fa, ok := x.Addr.(*ssa.FieldAddr); ok && tfa != nil && fa.X == tfa.X && fa.Field == tfa.Field {
 				return false // the list is reassigned in between
 			}
 			if ia2, ok := x.Addr.(*ssa.IndexAddr); ok && copied && sameLoc(ia2.X) && ia2.Index == idx {
